@@ -701,10 +701,11 @@ theorem act_frame {env : Env} {s s' : State} {player : Int} {ty : Option ActType
 
 /-! ## §5 settlement -/
 
-/-- raked settlement: payouts + rake = contributions; payouts are non-negative; one entry per seat -/
-theorem settleShowdown_sum {fl : Rat → Rat} (hfl : C14.FlSpec fl) (rc : Pot.RakeCfg) (hf0 : 0 ≤ rc.f)
-    (hf1 : rc.f ≤ 1) (bal : List Int) (hbal : ∀ b ∈ bal, 0 ≤ b) (tiers : List (List Nat)) (rp : Bool)
-    {pay : List Rat} {rake : List Int} (h : Pot.settleShowdown fl rc bal tiers rp = .ok (pay, rake)) :
+/-- raked settlement: payouts + rake = contributions; payouts are non-negative; one entry per seat
+(rounding exact up to `B`, contributions at most `B`) -/
+theorem settleShowdown_sum_B {fl : Rat → Rat} {B : Int} (hfl : C14.FlSpecB B fl) (rc : Pot.RakeCfg) (hf0 : 0 ≤ rc.f)
+    (hf1 : rc.f ≤ 1) (bal : List Int) (hbal : ∀ b ∈ bal, 0 ≤ b) (hB : ∀ b ∈ bal, b ≤ B) (tiers : List (List Nat))
+    (rp : Bool) {pay : List Rat} {rake : List Int} (h : Pot.settleShowdown fl rc bal tiers rp = .ok (pay, rake)) :
     sumQ pay + ((sumI rake : Int) : Rat) = ((sumI bal : Int) : Rat) ∧ (∀ x ∈ pay, 0 ≤ x) ∧
     pay.length = bal.length ∧ rake.length = bal.length ∧ rake = Pot.rakePerPlayer fl rc bal rp ∧
     (∀ p, p < bal.length → getI rake p ≤ getI bal p) := by
@@ -714,7 +715,7 @@ theorem settleShowdown_sum {fl : Rat → Rat} (hfl : C14.FlSpec fl) (rc : Pot.Ra
   simp only [Except.ok.injEq, Prod.mk.injEq] at h
   obtain ⟨rfl, rfl⟩ := h
   have hlen := C14.rake_length fl rc bal rp
-  have hle := C14.rake_le_contribution hfl rc bal rp hf0 hf1 hbal
+  have hle := C14.rake_le_contribution_B hfl rc bal rp hf0 hf1 hbal hB
   have hnn : ∀ b ∈ (bal.zip (Pot.rakePerPlayer fl rc bal rp)).map (fun (b, r) => b - r), 0 ≤ b := by
     intro b hb
     obtain ⟨j, hj, rfl⟩ := List.getElem_of_mem hb
@@ -727,6 +728,15 @@ theorem settleShowdown_sum {fl : Rat → Rat} (hfl : C14.FlSpec fl) (rc : Pot.Ra
   refine ⟨?_, h3, ?_, hlen, rfl, hle⟩
   · rw [h1, sumI_zip_sub _ _ hlen.symm]; push_cast; ring
   · rw [h2]; simp [hlen]
+
+/-- raked settlement: payouts + rake = contributions; payouts are non-negative; one entry per seat -/
+theorem settleShowdown_sum {fl : Rat → Rat} (hfl : C14.FlSpec fl) (rc : Pot.RakeCfg) (hf0 : 0 ≤ rc.f)
+    (hf1 : rc.f ≤ 1) (bal : List Int) (hbal : ∀ b ∈ bal, 0 ≤ b) (tiers : List (List Nat)) (rp : Bool)
+    {pay : List Rat} {rake : List Int} (h : Pot.settleShowdown fl rc bal tiers rp = .ok (pay, rake)) :
+    sumQ pay + ((sumI rake : Int) : Rat) = ((sumI bal : Int) : Rat) ∧ (∀ x ∈ pay, 0 ≤ x) ∧
+    pay.length = bal.length ∧ rake.length = bal.length ∧ rake = Pot.rakePerPlayer fl rc bal rp ∧
+    (∀ p, p < bal.length → getI rake p ≤ getI bal p) :=
+  settleShowdown_sum_B (hfl.toB (sumI bal)) rc hf0 hf1 bal hbal (Pot.mem_le_sumI hbal) tiers rp h
 
 /-- the accumulation over run-outs: each iteration adds vectors of the right length whose sums add up to `c` -/
 theorem foldlM_acc_sum {ι : Type} (f : List Rat × List Rat → ι → Except Err (List Rat × List Rat)) (n : Nat) (c : Rat)
@@ -751,10 +761,11 @@ theorem foldlM_acc_sum {ι : Type} (f : List Rat × List Rat → ι → Except E
     refine ⟨r1, r2, ?_, fun h => r4 (a4 h)⟩
     rw [r3, a3]; simp only [List.length_cons]; push_cast; ring
 
-/-- **`get_payouts_and_rake`**: payouts + rake = pot (exact rationals), payouts non-negative, one entry per seat -/
-theorem getPayoutsAndRake_sum {env : Env} (hfl : C14.FlSpec env.fl) {s : State} (hf0 : 0 ≤ s.rake.f)
-    (hf1 : s.rake.f ≤ 1) (hpot : ∀ b ∈ s.pot, 0 ≤ b) (hlen : s.pot.length = s.n) (hr : 1 ≤ s.runouts)
-    {pay rake : List Rat} (h : s.getPayoutsAndRake env = .ok (pay, rake)) :
+/-- **`get_payouts_and_rake`**: payouts + rake = pot (exact rationals), payouts non-negative, one entry per seat
+(rounding exact up to `B`, contributions at most `B`) -/
+theorem getPayoutsAndRake_sum_B {env : Env} {B : Int} (hfl : C14.FlSpecB B env.fl) {s : State} (hf0 : 0 ≤ s.rake.f)
+    (hf1 : s.rake.f ≤ 1) (hpot : ∀ b ∈ s.pot, 0 ≤ b) (hB : ∀ b ∈ s.pot, b ≤ B) (hlen : s.pot.length = s.n)
+    (hr : 1 ≤ s.runouts) {pay rake : List Rat} (h : s.getPayoutsAndRake env = .ok (pay, rake)) :
     sumQ pay + sumQ rake = ((sumI s.pot : Int) : Rat) ∧ (∀ x ∈ pay, 0 ≤ x) ∧
     pay.length = s.n ∧ rake.length = s.n := by
   unfold State.getPayoutsAndRake at h
@@ -764,7 +775,7 @@ theorem getPayoutsAndRake_sum {env : Env} (hfl : C14.FlSpec env.fl) {s : State} 
     obtain ⟨⟨pay', rake'⟩, hs, h⟩ := h
     simp only [Except.ok.injEq, Prod.mk.injEq] at h
     obtain ⟨rfl, rfl⟩ := h
-    obtain ⟨h1, h2, h3, h4, _⟩ := settleShowdown_sum hfl s.rake hf0 hf1 s.pot hpot _ _ hs
+    obtain ⟨h1, h2, h3, h4, _⟩ := settleShowdown_sum_B hfl s.rake hf0 hf1 s.pot hpot hB _ _ hs
     refine ⟨?_, h2, by rw [h3, hlen], by rw [List.length_map, h4, hlen]⟩
     rw [sumQ_map_intCast]; exact h1
   · generalize hk : (if (5 - s.board.length != 0 && s.action.isNone) = true then s.runouts else 1) = k at h
@@ -790,7 +801,7 @@ theorem getPayoutsAndRake_sum {env : Env} (hfl : C14.FlSpec env.fl) {s : State} 
       obtain ⟨⟨pay', rake'⟩, hs, hstep⟩ := hstep
       simp only [pure, Except.pure, Except.ok.injEq] at hstep
       subst hstep
-      obtain ⟨h1, h2, h3, h4, _⟩ := settleShowdown_sum hfl s.rake hf0 hf1 s.pot hpot _ _ hs
+      obtain ⟨h1, h2, h3, h4, _⟩ := settleShowdown_sum_B hfl s.rake hf0 hf1 s.pot hpot hB _ _ hs
       have l1 : acc.1.length = (pay'.map (· / (k : Rat))).length := by rw [List.length_map, h3, hlen, a1]
       have l2 : acc.2.length = (rake'.map fun (r : Int) => (r : Rat) / (k : Rat)).length := by
         rw [List.length_map, h4, hlen, a2]
@@ -805,6 +816,14 @@ theorem getPayoutsAndRake_sum {env : Env} (hfl : C14.FlSpec env.fl) {s : State} 
         simp only [List.mem_map] at hx
         obtain ⟨y, hy, rfl⟩ := hx
         exact div_nonneg (h2 y hy) (Nat.cast_nonneg _)
+
+/-- **`get_payouts_and_rake`**: payouts + rake = pot (exact rationals), payouts non-negative, one entry per seat -/
+theorem getPayoutsAndRake_sum {env : Env} (hfl : C14.FlSpec env.fl) {s : State} (hf0 : 0 ≤ s.rake.f)
+    (hf1 : s.rake.f ≤ 1) (hpot : ∀ b ∈ s.pot, 0 ≤ b) (hlen : s.pot.length = s.n) (hr : 1 ≤ s.runouts)
+    {pay rake : List Rat} (h : s.getPayoutsAndRake env = .ok (pay, rake)) :
+    sumQ pay + sumQ rake = ((sumI s.pot : Int) : Rat) ∧ (∀ x ∈ pay, 0 ≤ x) ∧
+    pay.length = s.n ∧ rake.length = s.n :=
+  getPayoutsAndRake_sum_B (hfl.toB (sumI s.pot)) hf0 hf1 hpot (Pot.mem_le_sumI hpot) hlen hr h
 
 /-! ## §6 the constructor -/
 
@@ -956,6 +975,14 @@ structure Chips (n : Nat) (T : Int) (s : State) : Prop where
   stacks_nonneg : ∀ x ∈ s.stacks, 0 ≤ x
   pot_nonneg : ∀ x ∈ s.pot, 0 ≤ x
   total : sumI s.stacks + sumI s.pot = T
+
+/-- no contribution exceeds the conserved total -/
+theorem Chips.pot_le {n : Nat} {T : Int} {s : State} (c : Chips n T s) : ∀ b ∈ s.pot, b ≤ T := by
+  intro b hb
+  have h1 := Pot.mem_le_sumI c.pot_nonneg b hb
+  have h2 := Pot.sumI_nonneg c.stacks_nonneg
+  have h3 := c.total
+  omega
 
 /-- moving `0 ≤ x ≤ stack` chips of seat `p` to the pot keeps the chip invariant (`p` may be out of range: no-op) -/
 theorem Chips.move {n : Nat} {T : Int} {stk pot : List Int} (hl1 : stk.length = n) (hl2 : pot.length = n)
@@ -1235,9 +1262,10 @@ theorem sum_pnl (s : State) (pay : List Rat) (hp : s.payouts = some pay) (hl : p
     · rw [← hs]; exact sumI_map_getI_range _
     · rw [← hst]; exact sumI_map_getI_range _
 
-/-- **settlement of a reachable complete hand** -/
-theorem reachable_complete {env : Env} (hw : env.w = World.std) (hfl : C14.FlSpec env.fl) {cfg : Cfg}
-    (hv : cfg.Valid) {s : State} (h : Reachable env cfg s) (hc : s.complete = true) :
+/-- **settlement of a reachable complete hand** (rounding exact up to `B`, at most `B` chips on the table) -/
+theorem reachable_complete_B {env : Env} (hw : env.w = World.std) {B : Int} (hfl : C14.FlSpecB B env.fl) {cfg : Cfg}
+    (hv : cfg.Valid) (hB : sumI cfg.startingStacks ≤ B) {s : State} (h : Reachable env cfg s)
+    (hc : s.complete = true) :
     ∃ pay rake, s.payouts = some pay ∧ s.rakePaid = some rake ∧ pay.length = cfg.n ∧ rake.length = cfg.n ∧
       sumQ pay + sumQ rake = ((sumI s.pot : Int) : Rat) ∧ (∀ x ∈ pay, 0 ≤ x) := by
   have hi := reachable_inv hw hv h
@@ -1251,9 +1279,17 @@ theorem reachable_complete {env : Env} (hw : env.w = World.std) (hfl : C14.FlSpe
     · have hrake : s2.rake = cfg.rake := hi.cfgOf.rake
       have hn : s2.n = cfg.n := hi.cfgOf.n
       have hr : s2.runouts = cfg.runouts := hi.cfgOf.runouts
-      obtain ⟨g1, g2, g3, g4⟩ := getPayoutsAndRake_sum hfl (s := s2) (by rw [hrake]; exact hv.f_nonneg)
-        (by rw [hrake]; exact hv.f_le_one) hi.chips.pot_nonneg (by rw [hn]; exact hi.chips.pot_len)
+      obtain ⟨g1, g2, g3, g4⟩ := getPayoutsAndRake_sum_B hfl (s := s2) (by rw [hrake]; exact hv.f_nonneg)
+        (by rw [hrake]; exact hv.f_le_one) hi.chips.pot_nonneg
+        (fun b hb => Int.le_trans (hi.chips.pot_le b hb) hB) (by rw [hn]; exact hi.chips.pot_len)
         (by rw [hr]; exact hv.runouts_pos) hp
       exact ⟨pay, rake, rfl, rfl, by rw [g3, hn], by rw [g4, hn], g1, g2⟩
+
+/-- **settlement of a reachable complete hand** -/
+theorem reachable_complete {env : Env} (hw : env.w = World.std) (hfl : C14.FlSpec env.fl) {cfg : Cfg}
+    (hv : cfg.Valid) {s : State} (h : Reachable env cfg s) (hc : s.complete = true) :
+    ∃ pay rake, s.payouts = some pay ∧ s.rakePaid = some rake ∧ pay.length = cfg.n ∧ rake.length = cfg.n ∧
+      sumQ pay + sumQ rake = ((sumI s.pot : Int) : Rat) ∧ (∀ x ∈ pay, 0 ≤ x) :=
+  reachable_complete_B hw (hfl.toB (sumI cfg.startingStacks)) hv (Int.le_refl _) h hc
 
 end CardVerif.Betting
